@@ -440,6 +440,20 @@ class _:
         c = lambda v: 'CNaN' if v is None else cq_cell(float(v))
         return '(OInterp %s %s %s %s %s)' % (cq_kind(kind), cq_labs(news), cq_axref(r), c(left), c(right))
 
+@op('interp_like')
+class _:
+    def run(a, ins, others, left, right, as_axes):
+        D = da(); kw = {}
+        if left is not None: kw['left'] = left
+        if right is not None: kw['right'] = right
+        axes = D.Axes([D.Axis(labs_np(l, k), n) for n, k, l in others])
+        if as_axes: return a.interp_like(axes, **kw)
+        other = D.DimArray(np.zeros([len(l) for _, _, l in others]), axes=axes)
+        return a.interp_like(other, **kw)
+    def coq(others, left, right, as_axes):
+        c = lambda v: 'CNaN' if v is None else cq_cell(float(v))
+        return '(OInterpLike %s %s %s)' % (cq_list(['(%s, %s, %s)' % (cq_str(n), cq_kind(k), cq_labs(l)) for n, k, l in others]), c(left), c(right))
+
 @op('flatten')
 class _:
     def run(a, ins, refs, form, insert):
@@ -478,3 +492,38 @@ class _:
 class _:
     def run(a, ins): return -a
     def coq(): raise Unsupported('unary ops are checked by the oracle only')
+
+# ---------------------------------------------------------------- in-place axis edits, queries, Dataset round trip (C05)
+@op('rename_axis')
+class _:
+    def run(a, ins, r, n): a.axes[r].name = n; return a
+    def coq(r, n): return '(ORenameAxis %s %s)' % (cq_axref(r), cq_str(n))
+
+@op('set_label')
+class _:
+    def run(a, ins, r, i, v): a.axes[r][i] = v; return a
+    def coq(r, i, v):
+        k = 'i' if isinstance(v, int) else 'f' if isinstance(v, float) else 'U'
+        return '(OSetLabel %s %s %s %s)' % (cq_axref(r), cq_z(i), cq_label(v), cq_kind(k))
+
+@op('set_dims')
+class _:
+    def run(a, ins, ns): a.dims = tuple(ns); return a
+    def coq(ns): return '(OSetDims %s)' % cq_list([cq_str(x) for x in ns])
+
+@op('query')
+class _:
+    def run(a, ins, what):
+        if what == 'monotonic': [ax.is_monotonic() for ax in a.axes]
+        elif what == 'repr': repr(a); str(a)
+        elif what == 'labels': a.labels
+        elif what == 'size': [getattr(ax, 'size') for ax in a.axes]; a.shape
+        elif what == 'copy': a = a.copy()
+        return a
+    def coq(what): return 'OIdentity'
+
+@op('dataset_roundtrip')
+class _:
+    def run(a, ins, key):
+        ds = da().Dataset(); ds[key] = a; return ds[key]
+    def coq(key): return 'OIdentity'
